@@ -158,7 +158,7 @@ fn net_ctx<'a>(events: &'a mut VecDeque<PacketEvent>, now: Instant) -> NetworkEv
 
 // @gv props=C05,C11 tier=quick required=yes fns=ProtocolState::handle_publish,ProtocolState::create_operation,ProtocolState::enqueue_operation
 // @gv bounds="one inbound PUBLISH, symbolic QoS / packet id / DUP; inbound-QoS2 set holding 0..1 symbolic id; engine state Connected"
-// @gv timeout=900 mem=12
+// @gv timeout=900 mem=6
 #[kani::proof]
 #[kani::unwind(4)]
 #[kani::stub(std::fmt::format, stub_format)]
@@ -209,7 +209,7 @@ fn c05_publish_step() {
 // ack ordering: acknowledgements are appended at the BACK, behind whatever is already queued
 // @gv props=C05 tier=quick required=yes fns=ProtocolState::handle_publish,ProtocolState::enqueue_operation
 // @gv bounds="one earlier ack already queued; inbound PUBLISH of concrete QoS 1 and 2 (one harness each), symbolic id"
-// @gv timeout=900 mem=12
+// @gv timeout=900 mem=6
 #[kani::proof]
 #[kani::unwind(4)]
 #[kani::stub(std::fmt::format, stub_format)]
@@ -217,7 +217,7 @@ fn c05_ack_back_q1() { ack_back(QualityOfService::AtLeastOnce) }
 
 // @gv props=C05 tier=quick required=yes fns=ProtocolState::handle_publish,ProtocolState::enqueue_operation
 // @gv bounds="as c05_ack_back_q1 for QoS 2"
-// @gv timeout=900 mem=12
+// @gv timeout=900 mem=6
 #[kani::proof]
 #[kani::unwind(4)]
 #[kani::stub(std::fmt::format, stub_format)]
@@ -688,7 +688,7 @@ fn written_other_body(k: usize) {
 
 // @gv props=C09 tier=quick required=yes fns=ProtocolState::apply_slow_start_initialization,ProtocolState::initialize_slow_start,ProtocolState::apply_ackable_completion
 // @gv bounds="two operations: one pending (publish, symbolic QoS>0) and one merely queued; drain policy symbolic; stale slow-start marks symbolic"
-// @gv timeout=900 mem=12
+// @gv timeout=900 mem=6
 #[kani::proof]
 #[kani::unwind(6)]
 #[kani::stub(std::fmt::format, stub_format)]
@@ -1424,7 +1424,7 @@ fn c11_auth_rejected() {
 
 // @gv props=C11 tier=quick required=yes fns=ProtocolState::service,ProtocolState::handle_network_event,ProtocolState::get_next_service_timepoint
 // @gv bounds="Halted engine with one retained publish (symbolic QoS) in the resubmit queue: service, incoming data (2 symbolic bytes), write completion, connection opened; then connection closed"
-// @gv timeout=900 mem=12
+// @gv timeout=900 mem=6
 #[kani::proof]
 #[kani::unwind(6)]
 #[kani::stub(std::fmt::format, stub_format)]
